@@ -240,10 +240,10 @@ type explorer struct {
 	trust    signers.VerifyOpts
 	orig     *payload.Payload
 	origData []byte
-	digest0  map[string]string // first value seen per digest name in this tree
-	digest0h map[string]string // the history where it was seen
+	digest0  map[string]string    // first value seen per digest name in this tree
+	digest0h map[string]string    // the history where it was seen
 	ref      map[int]*observation // observation after sign(op) alone
-	disabled map[int]string      // ops refused on the start itself
+	disabled map[int]string       // ops refused on the start itself
 	allow    []string
 	maxDepth int
 	wrapWant *payload.Payload
@@ -705,7 +705,6 @@ func exploreStart(e *env, fam *family, st *start, firstOps []int, maxDepth int, 
 	}
 	_ = thorough
 }
-
 
 func main() {
 	relicx.Quiet()
